@@ -73,7 +73,9 @@ def faulty(topo, cfg, culprit, kind):
             et = type(r.exc).__name__
             eng.check(culprit in msg, 'C13.noid', f'run() raised {et}({msg[:100]!r}) which does not identify simulator {culprit}: {desc}',
                       {'fp': fp + [et], 'exc_type': et})
-            eng.check(et in ('SimulationError',), 'C13.errtype', f'run() raised {et} instead of a SimulationError: {desc}', {'fp': fp + [et], 'exc_type': et})
+            # the statement asks for "an error identifying the simulator"; an `assert` is not one (it disappears under python -O,
+            # after which the reply would be silently accepted), any other exception type is
+            eng.check(et != 'AssertionError', 'C13.errtype', f'the reply is only caught by an assert statement ({msg[:80]!r}): {desc}', {'fp': fp + [et], 'exc_type': et})
         eng.check(not state['after'], 'C13.continued', f'step requests after the malformed reply was delivered: {state["after"]}: {desc}', {'fp': fp})
         return (r.outcome, {'nontrivial': True, 'fault_at': state['fired_at']})
     return h
